@@ -145,6 +145,17 @@ theorem c10_pop_delivers_head (s : State) (g n : Nat) (x : Nat × Nat) (xs : Lis
     ∧ (stepPopF s g n).1.assigned = s.assigned ++ [(s.nextPop, x)] := by
   rw [stepPopF_eq s g n x xs hi ht]; simp [popState]
 
+/-- while no hand-over throws (plain `pop`), a pop never fails a blocked producer and withdraws nothing -/
+theorem c10_nothrow_pop_fails_nobody (s : State) :
+    (stepPop s).1.withdrawn = s.withdrawn ∧ failedPushes (stepPop s).1.inflight = failedPushes s.inflight := by
+  unfold stepPop stepPopF
+  cases hi : s.items with
+  | nil => simp
+  | cons x xs =>
+    cases hb : s.blocked with
+    | nil => simp [admitLoop, throwsAt]
+    | cons b bs => simp [admitLoop, throwsAt]
+
 /-- The admission loop of a delivering pop, for every fault plan: the blocked list splits into the producers that
 were failed (`f`, the oldest ones, each because the hand-over of *its own* item threw), at most one admitted producer
 `a` (the next one, whose hand-over did not throw) and the untouched rest `r`; the failed producers get the item's
